@@ -139,6 +139,24 @@ class BasicCallableMapping(ABC):
         """
 
 #==============================================================================
+def _inverse_jacobian(J):
+    """Inverse of a (square) Jacobian matrix.
+
+    With floating-point coefficients Matrix.inv() (Gaussian elimination, no simplification)
+    divides by the pivots of J: the result is 0/0 wherever a pivot vanishes although det(J) != 0
+    (e.g. CzarnyMapping with float parameters at x2 = pi/2).  The adjugate formula has no such
+    removable singularity.
+    """
+    if J.atoms(Float):
+        def cofactor_det(M):
+            if M.rows == 1:
+                return M[0, 0]
+            return Add(*[(-1)**j * M[0, j] * cofactor_det(M.minor_submatrix(0, j))
+                         for j in range(M.cols)])
+        return J.adjugate() / cofactor_det(J)
+    return J.inv()
+
+#==============================================================================
 class Mapping(BasicMapping):
     """
     Represents a Mapping object.
@@ -248,10 +266,10 @@ class Mapping(BasicMapping):
 
             if obj._jac is None and obj._inv_jac is None:
                 obj._jac     = Jacobian(obj).subs(list(zip(args, exprs)))
-                obj._inv_jac = obj._jac.inv() if pdim == ldim else None
+                obj._inv_jac = _inverse_jacobian(obj._jac) if pdim == ldim else None
             elif obj._inv_jac is None:
                 obj._jac     = ImmutableDenseMatrix(sympify(obj._jac)).subs(subs)
-                obj._inv_jac = obj._jac.inv() if pdim == ldim else None
+                obj._inv_jac = _inverse_jacobian(obj._jac) if pdim == ldim else None
 
             elif obj._jac is None:
                 obj._inv_jac = ImmutableDenseMatrix(sympify(obj._inv_jac)).subs(subs)
